@@ -42,7 +42,7 @@ type Tape struct {
 var framings = []string{"init-krb5", "init-ms", "init-ntlm-first", "init-empty", "init-foreign", "init-nomechtoken", "resp", "resp-nomech", "resp-foreign", "resp-notoken-completed", "resp-notoken-incomplete", "raw"}
 var etypes = []int{18, 17, 19, 20, 16, 23}
 var defects = []string{"wrong-key", "wrong-kvno-label", "wrong-realm-label", "wrong-sname-label", "ticket-usage", "auth-usage-7", "auth-wrong-key", "flag-invalid",
-	"tkt-flip", "tkt-trunc", "auth-flip", "auth-trunc", "cname-mismatch", "cname-extra-component", "cname-fewer-components", "cname-empty", "crealm-mismatch", "t-end", "t-start", "t-ctime-old", "t-ctime-future"}
+	"tkt-flip", "tkt-trunc", "tkt-forged-plain-appended", "auth-flip", "auth-trunc", "cname-mismatch", "cname-extra-component", "cname-fewer-components", "cname-empty", "crealm-mismatch", "t-end", "t-start", "t-ctime-old", "t-ctime-future"}
 
 func Meta() core.Meta {
 	nsweep := len(framings)*3*2 + len(defects)*4 + 40
@@ -115,6 +115,9 @@ func Gen(caseID, tier string) (json.RawMessage, error) {
 			rq.Spec.CRealm = "OTHER.TEST"
 		case 2:
 			rq.Spec.Client = "carol/admin"
+		case 3:
+			rq.Spec.PAC = "valid"
+			tp.Settings.DecodePAC = true
 		}
 		tp.Reqs = []Req{rq}
 		return core.MustJSON(tp), nil
@@ -131,6 +134,7 @@ func Gen(caseID, tier string) (json.RawMessage, error) {
 	if r.Chance(1, 6) {
 		tp.Settings.KtPrinc = r.Pick("HTTP/host.sim.test", "HTTP/other.sim.test")
 	}
+	tp.Settings.DecodePAC = r.Chance(1, 2)
 	et := etypes[r.Intn(len(etypes))]
 	nr := r.Range(1, 8)
 	apiRun := r.Chance(1, 6)
@@ -163,6 +167,9 @@ func Gen(caseID, tier string) (json.RawMessage, error) {
 			rq.Spec.Addrs = r.Pick("", "", "match", "other", "both")
 			rq.Spec.StartTime = !r.Chance(1, 4)
 			rq.Spec.Subkey = r.Chance(1, 3)
+			if r.Chance(1, 4) {
+				rq.Spec.PAC = r.Pick("valid", "valid", "valid", "flipped", "wrongkey", "sigflipped", "truncated", "nosig", "noinfo")
+			}
 			if r.Chance(1, 3) {
 				rq.Spec.Defects = []world.Defect{{Kind: defects[r.Intn(len(defects))], Arg: int64(r.PickInt(-1000000000, -1, 1, 1000000000))}}
 			} else if r.Chance(1, 4) {
